@@ -37,10 +37,13 @@ def exhaustive(tier):
             "before or after the entry")
 
 
+ENTRY_KEYS = ["s", "e1", "t", "S"]      # entry keys that are also macro names (separate key spaces)
+
+
 def render(defs_before, entries, defs_after):
     parts = ["@string{%s = %s}" % d for d in defs_before]
     for i, fields in enumerate(entries):
-        parts.append("@misc{e%d, %s}" % (i, ", ".join("f%d = %s" % (j, v) for j, v in enumerate(fields))))
+        parts.append("@misc{%s, %s}" % (ENTRY_KEYS[i % len(ENTRY_KEYS)], ", ".join("f%d = %s" % (j, v) for j, v in enumerate(fields))))
     parts += ["@string{%s = %s}" % d for d in defs_after]
     return "\n".join(parts) + "\n"
 
@@ -71,7 +74,7 @@ def cases(tier, seed, shard, nshards):
         for e in range(ne):
             nf = r.randint(1, 4)
             fs = ",".join("%sf%d%s=%s%s%s" % (r.choice(ws), j, r.choice(ws), r.choice(ws), r.choice(vs), r.choice(ws)) for j in range(nf))
-            blocks.append("@article{k%d,%s%s}" % (e, fs, r.choice(["", ",", " , "])))
+            blocks.append("@article{%s,%s%s}" % (["s", "k1", "t", "st"][e], fs, r.choice(["", ",", " , "])))
         if r.random() < .3:
             blocks.append("% free text s t S")
         if r.random() < .3:
